@@ -31,4 +31,14 @@ impl<I: Iterator, F: Fn(I::Item) -> ControlFlow<I::Item, I>> Iterator for Stack<
             }
         }
     }
+
+    fn size_hint(&self) -> (usize, Option<usize>) {
+        // an empty stack yields nothing more; telling so allows an enclosing `Stack`
+        // to drop this one once it has returned its last item (e.g. a tail call to a parent)
+        if self.0.is_empty() {
+            (0, Some(0))
+        } else {
+            (0, None)
+        }
+    }
 }
